@@ -21,6 +21,20 @@ METHOD_OP = {"_adjoint": "H", "conjugate": "*", "_transpose": "T"}
 OPNAME = {"H": "adjoint", "*": "conjugate", "T": "transpose"}
 
 
+REAL_DECO = {"*": "", "H": "T", "": "", "T": "T"}
+
+
+def realify(p, real_atoms):
+    """Normal form when some atoms are real arrays: conj(X) = X, X^H = X^T."""
+    if not real_atoms:
+        return p
+    out = {}
+    for w, c in p.items():
+        w2 = tuple((n, REAL_DECO[d] if n in real_atoms else d) for n, d in w)
+        out[w2] = out.get(w2, 0) + c
+    return {w: c for w, c in out.items() if c}
+
+
 def P_of(pair):
     A, B = pair
     return ld.sub(ld.ONE, ld.mul(A, ld.adjoint(B)))
@@ -96,10 +110,11 @@ class ProjectorModel:
                 return "self"
         raise AnalysisError(RULE, f"initial value of {attr} not understood: `{norm(v)}`")
 
-    def run_method(self, name: str, hermitian: bool, rep: Report | None = None, depth=0):
+    def run_method(self, name: str, hermitian: bool, rep: Report | None = None, depth=0, real=frozenset()):
         """Abstractly run an operator-returning method on the base object (R, L).
-        Returns the resulting pair."""
-        key = (name, hermitian)
+        ``real``: which of the atoms R, L are real arrays.  Returns the resulting pair."""
+        self.real = real = frozenset(real)
+        key = (name, hermitian, real)
         if key in self._memo:
             return self._memo[key]
         if depth > 4:
@@ -144,6 +159,15 @@ class ProjectorModel:
                     val = st["hermitian"]
                 if t == "not self._hermitian":
                     val = not st["hermitian"]
+                # dtype predicates on the stored vectors
+                for txt, atomname in (("self._vecs", "R"), ("self._left_vecs", "R" if st["hermitian"] else "L")):
+                    is_real = atomname in self.real
+                    if t in (f"np.iscomplexobj({txt})", f"np.iscomplexobj({txt}.dtype)"):
+                        val = not is_real
+                    if t in (f"not np.iscomplexobj({txt})", f"np.isrealobj({txt})"):
+                        val = is_real
+                    if t == f"not np.isrealobj({txt})":
+                        val = not is_real
                 if val is None:
                     raise AnalysisError(RULE, f"{f.name}: condition `{t}` not understood")
                 r = self._run_block(s.body if val else s.orelse, st, rep, f, depth)
@@ -177,13 +201,18 @@ class ProjectorModel:
         op = CACHE_OP[attr]
         want = apply_op(op, P_of(owner))
         got = P_of(value)
-        mode = "L=R" if st["hermitian"] else "L!=R"
+        mode = ("L=R" if st["hermitian"] else "L!=R") + self._real_tag()
+        got, want = realify(got, self.real), realify(want, self.real)
         inst = f"{CLS}.{f.name} [{mode}] `{norm(stmt)}` caches the {OPNAME[op]} of {owner_text}"
         if got == want:
             rep.ok(RULE, inst, f"denotes {ld.show(got)}", self.repo.loc("linalg", stmt))
         else:
             rep.fail(RULE, f"{CLS}.{f.name} [{mode}] `{norm(stmt)}` stores {ld.show(got)} as the {OPNAME[op]} of {owner_text}",
                      f"required {ld.show(want)}", self.repo.loc("linalg", stmt))
+
+    def _real_tag(self):
+        r = getattr(self, "real", frozenset())
+        return "" if not r else ", real " + "+".join(sorted(r))
 
     def _array(self, e, st):
         def resolve(n):
@@ -249,7 +278,9 @@ class ProjectorModel:
             raise AnalysisError(RULE, "method call on None")
         A, B = pair
         herm = A == B
-        res = self.run_method(method, herm, None, depth + 1)
+        saved = self.real
+        res = self.run_method(method, herm, None, depth + 1, real=saved)
+        self.real = saved
         if res is None:
             return None
         mp = {"R": A, "L": B}
@@ -324,20 +355,28 @@ def rule_projector(rep: Report, repo: Repo):
             rep.fail(RULE, f"{CLS}.{slot} -> {f.name} `{norm(rets[0].value)}` denotes {ld.show(got)}",
                      f"SciPy contract: {slot} must compute {txt} = {ld.show(want)} with P = 1 - R.L^H", loc(f))
     # -- adjoint / conjugate / transpose objects ------------------------------------------
+    # dtype-dependent branches: which of R, L are real arrays (conj(X) = X for a real X)
+    uses_dtype = any("iscomplexobj" in norm(n) or "isrealobj" in norm(n) for meth in METHOD_OP for n in ast.walk(m.resolve(meth) or ast.Pass())
+                     if isinstance(n, ast.If))
+    real_modes = [frozenset()] if not uses_dtype else None
     for meth, op in METHOD_OP.items():
         for hermitian in (True, False):
-            m._memo.clear()
-            pair = m.run_method(meth, hermitian, rep)
-            base = (ld.atom("R"), ld.atom("R") if hermitian else ld.atom("L"))
-            want = apply_op(op, P_of(base))
-            got = P_of(pair)
-            mode = "L=R" if hermitian else "L!=R"
-            f = m.resolve(meth)
-            if got == want:
-                rep.ok(RULE, f"{CLS}.{meth} [{mode}] returns the {OPNAME[op]} of P", f"denotes {ld.show(got)}", loc(f))
-            else:
-                rep.fail(RULE, f"{CLS}.{meth} [{mode}] returns an operator denoting {ld.show(got)}",
-                         f"required {OPNAME[op]}(P) = {ld.show(want)}", loc(f))
+            modes = real_modes or ([frozenset(), frozenset({"R"})] if hermitian else
+                                   [frozenset(), frozenset({"R"}), frozenset({"L"}), frozenset({"R", "L"})])
+            for real in modes:
+                m._memo.clear()
+                pair = m.run_method(meth, hermitian, rep, real=real)
+                m.real = real
+                base = (ld.atom("R"), ld.atom("R") if hermitian else ld.atom("L"))
+                want = realify(apply_op(op, P_of(base)), real)
+                got = realify(P_of(pair), real)
+                mode = ("L=R" if hermitian else "L!=R") + m._real_tag()
+                f = m.resolve(meth)
+                if got == want:
+                    rep.ok(RULE, f"{CLS}.{meth} [{mode}] returns the {OPNAME[op]} of P", f"denotes {ld.show(got)}", loc(f))
+                else:
+                    rep.fail(RULE, f"{CLS}.{meth} [{mode}] returns an operator denoting {ld.show(got)}",
+                             f"required {OPNAME[op]}(P) = {ld.show(want)}", loc(f))
     rep.check(m.cls.bases and norm(m.cls.bases[0]) == "LinearOperator", RULE, f"{CLS} derives from scipy LinearOperator", "", loc(m.cls))
 
 
